@@ -113,10 +113,12 @@ func BuildStructCodec(p CodecBuilder, registry CodecRegistry, typ reflect.Type, 
 		}
 
 		if wantIntern {
-			if in, ok := fc.(Interner); ok {
-				// Note we get an independent interner for each field
-				fc = in.WithInterning()
+			in, ok := fc.(Interner)
+			if !ok {
+				return nil, fmt.Errorf("field %d (%s) of %s cannot be interned", i, sf.Name, typ.Name())
 			}
+			// Note we get an independent interner for each field
+			fc = in.WithInterning()
 		}
 
 		field.codec = fc
